@@ -59,6 +59,19 @@ def type_id_protocol(ctx, pid, fn, fnode, var, construct_prefix):
             ctx.finding(rule, construct,
                         f'arm for type id {k} ({name}) pushes '
                         f'{arms[k] or "nothing"}', fn.file, fnode.lineno)
+    # the range test of an arm is the one of the arm's own type
+    ranges = proto.type_id_range_checks(fnode)
+    for k, name in sorted(ids.items()):
+        used = ranges.get(k) or []
+        if used and name not in used:
+            construct = f'{construct_prefix}[{k}:{name}]:range'
+            ctx.instance(rule, construct, sample={'can_hold_of': used})
+            ctx.finding(rule, construct,
+                        f'the arm for type id {k} ({name}) tests the value '
+                        f'with {used}.can_hold, the range of another type: '
+                        f'a value outside {name} is accepted and the cell '
+                        f'write traps instead of the field being rejected',
+                        fn.file, fnode.lineno)
     for k in arms:
         if k not in ids:
             ctx.observe(f'{construct_prefix}: arm for id {k} which no '
